@@ -7,6 +7,8 @@
 (* A configuration is the directive tree itself: a sequence of nodes       *)
 (*   [d |-> "source",  rules |-> <<addr..>>, c |-> <<node..>>]             *)
 (*   [d |-> "source_in", keys |-> <<addr..>>, tk |-> kind, fail |-> <<addr..>>, c |-> ..]  (table) *)
+(*        (a key of a source_in table may be the null sender; the catch-all kinds *)
+(*         "identity" / "regexp_all" have keys = <<>> and answer for every key)   *)
 (*   [d |-> "default_source", c |-> ..]                                    *)
 (*   destination / destination_in / default_destination   likewise        *)
 (*   [d |-> "reject", code |-> 550]          (0 = bare `reject` = 554)     *)
@@ -55,6 +57,9 @@ CONSTANTS Locals, Doms,      \* alphabet of the match rules / tables / rewrite m
           TableKinds,        \* table modules of source_in / destination_in
           SenderCap,         \* envelopes of the sweep (sender classes); bounds without source blocks need few
           BareMaps,          \* rewrite maps may use local-part keys and domain-less values
+          NullKeys,          \* source_in tables may list the null reverse-path (the empty key)
+          DupRules,          \* a rule list may repeat a rule (inside one directive; across directives is always possible)
+          FlatOnly,          \* a level whose block budget (MaxSrc / MaxDst) is 0 is written flat (no lone default block)
           PrintExpected      \* rows carry the expected routing (Rule) of every envelope
 
 (***************************************************************************)
@@ -151,10 +156,16 @@ Load(D, cfg) == IF LoadReasons(D, cfg) = {} THEN "ok" ELSE "error"
 (* logged and counts as "no match" for that address - and only for that address, *)
 (* whatever was looked up before (msgpipeline.go: srcBlockForAddr/rcptBlockForAddr).*)
 (* Deviation F33: table.regexp without replacement answered not-found for all.   *)
+(* A key may be the null reverse-path (l = d = ""): the table is asked for the    *)
+(* empty key when the sender is <>, like for any other sender.  CATCH-ALL tables  *)
+(* (table.identity, `regexp ".*"`) have no key list and answer for EVERY key,     *)
+(* the empty one included.                                                        *)
+CatchAll == {"identity", "regexp_all"}
 TableHas(D, b, a) ==
-  /\ \E i \in 1..Len(b.keys) : Norm(D, b.keys[i]) = Norm(D, a)
+  /\ \/ b.tk \in CatchAll
+     \/ \E i \in 1..Len(b.keys) : Norm(D, b.keys[i]) = Norm(D, a)
   /\ ~\E i \in 1..Len(b.fail) : Norm(D, b.fail[i]) = Norm(D, a)
-  /\ ~("F33" \in D /\ b.tk = "regexp")
+  /\ ~("F33" \in D /\ b.tk \in {"regexp", "regexp_all"})
 
 Cls(D, b, a) ==
   (IF b.d \in {"source_in", "destination_in"} /\ TableHas(D, b, a) THEN {1} ELSE {})
@@ -398,7 +409,9 @@ RuleAtoms == CanonAddrs(RuleVars) \cup CanonDoms(RuleVars)
 Keys == {Addr(l, d, "lower") : l \in Locals, d \in Doms}       \* table keys are written canonically
 
 (* rule lists / key lists / rewrite values are filled element by element *)
-KeySeq == SetToSeq(Keys)
+(* a source_in table may also list the null reverse-path; table.file cannot hold an empty key *)
+KeysOf(kind, tk) == Keys \cup (IF NullKeys /\ kind = "source_in" /\ tk # "file" THEN {NullS} ELSE {})
+KeySeq == SetToSeq(Keys) \o <<NullS>>
 KeyRank(k) == CHOOSE i \in 1..Len(KeySeq) : KeySeq[i] = k
 BareKeys == IF BareMaps THEN {Addr(l, "", "lower") : l \in Locals} ELSE {}    \* `entry alias ...`
 MapKeySeq == SetToSeq(Keys \cup BareKeys)
@@ -459,12 +472,15 @@ G_ModVal ==
 G_Arg ==
   /\ Building /\ Len(Top.args) < Top.need
   /\ \/ /\ Top.kind \in {"source", "destination"}
-        /\ \E x \in RuleAtoms : /\ \A i \in 1..Len(Top.args) : Top.args[i] # x
+        /\ \E x \in RuleAtoms : /\ DupRules \/ \A i \in 1..Len(Top.args) : Top.args[i] # x
                                 /\ SetTop([Top EXCEPT !.args = Append(@, x)])
      \/ /\ Top.kind \in {"source_in", "destination_in"}
-        /\ \E x \in Keys : /\ Top.args # <<>> => KeyRank(x) > KeyRank(Top.args[Len(Top.args)])
-                           /\ KeyRank(x) <= Len(KeySeq) - (Top.need - Len(Top.args) - 1)
-                           /\ SetTop([Top EXCEPT !.args = Append(@, x)])
+        /\ LET K == KeysOf(Top.kind, Top.tk)
+           IN \E x \in K :
+                /\ Top.args # <<>> => KeyRank(x) > KeyRank(Top.args[Len(Top.args)])
+                \* enough keys of higher rank are left for the remaining arguments
+                /\ Cardinality({y \in K : KeyRank(y) > KeyRank(x)}) >= Top.need - Len(Top.args) - 1
+                /\ SetTop([Top EXCEPT !.args = Append(@, x)])
   /\ UNCHANGED <<cfg, phase, budget, nmod, nopen, salt>>
 
 (* "no source blocks: the whole configuration is the default_source block" *)
@@ -474,6 +490,7 @@ G_Flat ==
   /\ UNCHANGED <<cfg, phase, budget, nmod, nopen, salt>>
 G_Blocks ==
   /\ Ready /\ Top.mode = "new" /\ Top.lvl \in {"P", "S"}
+  /\ FlatOnly => (IF Top.lvl = "P" THEN MaxSrc ELSE MaxDst) > 0
   /\ SetTop([Top EXCEPT !.mode = "blocks"])
   /\ UNCHANGED <<cfg, phase, budget, nmod, nopen, salt>>
 
@@ -485,10 +502,11 @@ G_Open ==
             ELSE /\ Top.nblk < (IF Top.lvl = "P" THEN MaxSrc ELSE MaxDst)
                  /\ DefaultLast => ~Top.hasDef
        /\ \E need \in (IF kind \in {"source", "destination"} THEN 1..MaxRules
-                        ELSE IF HasArgs(kind) THEN 1..MaxKeys ELSE {0}) :
+                        ELSE IF HasArgs(kind) THEN 0..MaxKeys ELSE {0}) :
             \E tk \in (IF kind \in {"source_in", "destination_in"} THEN TableKinds ELSE {""}),
                fm \in {"first", "last"} :
             /\ tk # "scripted" => fm = "first"
+            /\ kind \in {"source_in", "destination_in"} => (need = 0 <=> tk \in CatchAll)   \* no key list
             /\ stack' = Append(stack, Frame(kind, IF Top.lvl = "P" THEN "S" ELSE "D", Top.depth, need, tk, fm))
             /\ HasArgs(kind) => nopen < MaxBlocks
             /\ nopen' = IF HasArgs(kind) THEN nopen + 1 ELSE nopen
